@@ -42,6 +42,7 @@ func run(rt *rapid.T) {
 	steps := gen.Uniform(rt, 5, 40, "steps")
 	collapsedBelow := false // a commit with a small collapse level happened
 	touchedAfterCollapse, reloaded, sameValueCollapsed, deleteAfterCollapse := false, false, false, false
+	refusedThenGC := false
 	observes, copies := 0, 0
 	for i := 0; i < steps; i++ {
 		k := gen.Pct(rt, "op")
@@ -117,6 +118,14 @@ func run(rt *rapid.T) {
 			key := gen.Pick(rt, pool, "absent")
 			if _, live := m.Model[string(key)]; !live {
 				m.Delete(key)
+				if withDB && clean && gen.Chance(rt, 50, "absentthengc") {
+					// a refused delete changes nothing: two collection passes later everything still resolves
+					m.Logf("(refused delete, then two collection passes and a full observation)")
+					m.GC()
+					m.GC()
+					m.Observe(nil)
+					refusedThenGC = true
+				}
 			}
 		case k < 80 && withDB:
 			level := gen.Pick(rt, []int{0, 0, 1, 1, 2, 3, 4, 5, 64}, "level")
@@ -163,6 +172,7 @@ func run(rt *rapid.T) {
 	add(deleteAfterCollapse, "delete-through-hash-ref")
 	add(sameValueCollapsed, "rewrite-same-value-collapsed")
 	add(reloaded, "reload")
+	add(refusedThenGC, "refused-delete-then-two-gc-passes")
 	add(readded, "delete-and-re-add-identical")
 	add(reverted, "back-to-an-earlier-value")
 	add(copies > 0, "speculation-on-a-copy-in-between")
